@@ -1117,10 +1117,11 @@ impl ArrowColumnWriter {
         chunker: &mut ContentDefinedChunker,
     ) -> Result<()> {
         let levels = &col.0;
-        let chunks = chunker.get_arrow_chunks(
+        let chunks = chunker.get_arrow_chunks_at(
             levels.def_level_data().as_ref(),
             levels.rep_level_data().as_ref(),
             levels.array(),
+            Some(levels.non_null_indices()),
         )?;
 
         let num_chunks = chunks.len();
